@@ -85,6 +85,16 @@ func findAtt(l []attObs, nonce uint64, hash string) *attObs {
 	return nil
 }
 
+func countOf(l []int64, v int64) int {
+	n := 0
+	for _, x := range l {
+		if x == v {
+			n++
+		}
+	}
+	return n
+}
+
 func hasDup(l []int64) bool {
 	seen := map[int64]bool{}
 	for _, v := range l {
@@ -228,12 +238,14 @@ func (m *monitor) after(o Op, pre *preT, ob obsT, err error, events sdk.Events) 
 		if m.voted[pre.voteOracle] == nil {
 			m.voted[pre.voteOracle] = map[uint64]bool{}
 		}
-		if m.voted[pre.voteOracle][o.Nonce] || (a != nil && hasDup(a.votes)) {
+		if m.voted[pre.voteOracle][o.Nonce] || (a != nil && countOf(a.votes, pre.voteOracle) > 1) {
 			m.fail("C01:revote", fmt.Sprintf("oracle %d had a second vote accepted for event nonce %d (votes now %v)", pre.voteOracle, o.Nonce, votesOf(a)))
 			h.rep.Count("revote-after-rebond")
 		}
 		m.voted[pre.voteOracle][o.Nonce] = true
-		if last, ok := m.lastAcc[pre.voteOracle]; ok && o.Nonce != last+1 {
+		// (an oracle that fell more than one nonce behind the last observed one may re-synchronise at the last observed
+		// nonce, exactly like a newly registered oracle: not counted as a skipped nonce)
+		if last, ok := m.lastAcc[pre.voteOracle]; ok && o.Nonce != last+1 && !(o.Nonce > last+1 && o.Nonce == old.lastObs) {
 			m.fail("C01:skip", fmt.Sprintf("oracle %d voted nonce %d after nonce %d within one registration", pre.voteOracle, o.Nonce, last))
 		}
 		m.lastAcc[pre.voteOracle] = o.Nonce
